@@ -389,6 +389,24 @@ def r_limit_is_assigned_value(ctx: Ctx, rule: str):
                    "inconclusive; the constructors pass their pool_size argument to the setter / the base constructor unchanged")
     setters = ctx.pool_setters("pool_size")
     rep.floor(rule, "pool_size setter", len(setters), 1)
+    # the free-room counter is never driven below zero: asyncio's Semaphore blocks while `_value == 0` - a negative counter blocks nobody
+    for f_ in setters:
+        for n_ in ctx.distinct_sites(ctx.nodes(f_, lambda n: n.op in ("assign", "aug") and any(e.path.endswith("._enough_room._value") for e in ctx.eff.of_node(n)))):
+            v_ = getattr(n_.ast, "value", None)
+            if v_ is None:
+                continue
+            leaves_ = [l_[2] for l_ in ctx.vals.leaves(n_.func, n_.env, v_)] or [v_]
+
+            def may_go_negative(e_: ast.AST) -> bool:
+                e_ = strip_cast(e_)
+                if isinstance(e_, ast.Call) and isinstance(e_.func, ast.Name) and e_.func.id == "max" and any(isinstance(a_, ast.Constant) and a_.value == 0 for a_ in e_.args):
+                    return False
+                return any(isinstance(x_, ast.BinOp) and isinstance(x_.op, ast.Sub) for x_ in ast.walk(e_)) or isinstance(n_.ast, ast.AugAssign) and isinstance(n_.ast.op, ast.Sub)
+
+            bad_ = [e_ for e_ in leaves_ if may_go_negative(e_)]
+            rep.ob(rule, "the setter never stores a difference into the free-room counter without clamping it at 0", not bad_, node=n_,
+                   detail="" if not bad_ else f"`{ast.unparse(bad_[0])[:60]}` can be negative (more tasks counted as occupying room than the new size): Semaphore.locked() "
+                                              "tests `_value == 0`, so with a negative counter every acquire() succeeds at once and the pool is unbounded")
 
     def truthy_use(e: ast.AST, name: str) -> bool:
         """does e choose its value by the truth value of `name`?"""
@@ -1305,6 +1323,11 @@ def r_wiring(ctx: Ctx, rule: str, roles: Set[str], floor: int, what: str):
                         afr0, aenv0 = ctx.an.syn_arg_frame.get(id(arg), (fr, env))
                         afr, _aenv, arg = ctx.vals.trace(afr0, aenv0, arg)
                     arole = expr_role(ctx, afr, arg)
+                    if prole in roles and prole in ("NUM", "NCONC", "STARS") and isinstance(arg, ast.Name) and arg.id in ctx.an.scope(afr).params and ctx.an.scope(afr).defs.get(arg.id):
+                        n_checked += 1
+                        rep.ob(rule, f"the value bound to parameter `{pname}` of {t.short} (role {prole}) is the request's own, not a quantity computed from it", False,
+                               func=f, construct=node, detail=f"`{arg.id}` is re-bound in {afr.short} before it is passed on")
+                        continue
                     if prole in roles and arole is None and derived(afr, arg, prole):
                         n_checked += 1
                         rep.ob(rule, f"the value bound to parameter `{pname}` of {t.short} (role {prole}) is the request's own, not a quantity computed from it", False,
